@@ -34,19 +34,15 @@ def traceField (out : List String) : String :=
   if out.isEmpty then "-" else
   ",".intercalate ((out.reverse.flatMap fun l => l.splitOn "\n").map fun l => if l.isEmpty then "e" else stringToHex l)
 
-/-- frames bottom → top as the error printer lists them -/
+/-- frames bottom → top as the error printer lists them (`Model.listedFrames`: the head frame always, a body frame
+unless it is a never-started frame of a program module); every frame is "native" by its OWN module -/
 def locs (vm : VM Float) : String :=
-  let frames := vm.stack.reverse
-  match frames with
+  match listedFrames vm with
   | [] => "noloc"
-  | head :: _ =>
-    let modOf (id : Int) : Option Module := if id < 0 then none else vm.modules[id.toNat]?
-    let headNoProg := match modOf head.moduleId with
-      | some m => !m.hasProgram
-      | none => true
+  | frames =>
     ">".intercalate (frames.map fun fr =>
-      if fr.moduleId == -1 || headNoProg then "native"
-      else match modOf fr.moduleId with
+      if fr.isNative vm then "native"
+      else match moduleOf vm fr.moduleId with
         | some m => (if m.name == "主模块" then "main" else stringToHex m.name) ++ ":" ++ toString (fr.line + 1)
         | none => "native")
 
